@@ -105,6 +105,9 @@ pub struct Hist {
     pub reports: Vec<ReportSnap>,
     /// (step, peer): the reader half stopped reading (until the drain phase).
     pub freezes: Vec<(u64, u32)>,
+    /// Simulated time (ms) at which a peer's attachment was confirmed / the runtime reported it gone: (peer, ms).
+    pub attached_ms: Vec<(u32, u64)>,
+    pub disconnect_ms: Vec<(u32, u64)>,
 }
 
 pub type SharedHist = Rc<RefCell<Hist>>;
@@ -195,6 +198,11 @@ async fn peer_writer(
 ) {
     PEER_STATES.with(|w| w.borrow_mut().push((epoch, script.id, shared.clone())));
     yield_n(script.attach_delay).await;
+    if script.attach_after_ms > 0 {
+        shared.borrow_mut().sleeping = true;
+        tokio::time::sleep(Duration::from_millis(script.attach_after_ms)).await;
+        shared.borrow_mut().sleeping = false;
+    }
     if let Some(of) = script.reattach_of {
         // Wait until the runtime has reported the earlier remote of that id gone, its script is over and the system
         // has been idle once since (nothing of the earlier session is in flight any more); give up when the run is
@@ -259,6 +267,7 @@ async fn peer_writer(
                     Err(_) => "PromiseDropped".to_string(),
                 };
                 h.borrow_mut().disconnects.push((now_step(), pid, text));
+                h.borrow_mut().disconnect_ms.push((pid, super::model::sim_ms()));
                 REATTACH_WAITERS.with(|w| {
                     for (_, of, sh) in w.borrow().iter() {
                         if *of == pid {
@@ -279,6 +288,7 @@ async fn peer_writer(
             Box::pin(async move {
                 if att_trig_rx.await.is_ok() {
                     h.borrow_mut().attached.push((now_step(), pid));
+                    h.borrow_mut().attached_ms.push((pid, super::model::sim_ms()));
                 }
             }),
         ));
@@ -1141,6 +1151,7 @@ pub async fn run_scenario(sc: &AgentScenario, keep_log: bool) -> RunRecord {
                                 .map(|l| Op::Sync { lane: l.to_string() })
                                 .collect(),
                             reattach_of: None,
+                            attach_after_ms: 0,
                         };
                         let shared: SharedPeer = Rc::new(RefCell::new(PeerShared::default()));
                         inc2.peers.push(shared.clone());
